@@ -100,6 +100,10 @@ class DiscreteStridedIntervalSet(StridedInterval):
         StridedInterval.__init__(self, name=name, bits=bits)
 
         # Update lower_bound and upper_bound
+        if self._si_set:
+            # start from "no bound yet": the defaults of StridedInterval.__init__ are those of TOP and would never be tightened
+            self._lower_bound = None
+            self._upper_bound = None
         for si in self._si_set:
             self._update_bounds(si)
             self._update_bits(si)
@@ -443,6 +447,12 @@ class DiscreteStridedIntervalSet(StridedInterval):
         return r.normalize()
 
     # Evaluation
+
+    def min(self, signed=False):
+        return min(si.min(signed=signed) for si in self._si_set) if self._si_set else StridedInterval.min(self, signed=signed)
+
+    def max(self, signed=False):
+        return max(si.max(signed=signed) for si in self._si_set) if self._si_set else StridedInterval.max(self, signed=signed)
 
     def eval(self, n, signed=False):
         """
